@@ -392,6 +392,9 @@ def columnsConsole (cfg : Cfg) (o : ColsOpts) (opts : Opts) (items : List Ch) (w
 mutual
 inductive R where
   | text (t : T)
+  /-- a `str` renderable: `t` is the `Text` `console.render_str` makes of it (markup, emoji codes, highlighter).  It renders and
+  measures like that text — except behind a `__rich__` cast, see `measure`. -/
+  | str (t : T)
   | padding (p : PadDims) (expand : Bool) (child : R)
   | panel (o : PanelOpts) (child : R)
   | align (o : AlignOpts) (child : R)
@@ -425,6 +428,7 @@ mutual
 /-- `Measurement.get(console, r, w)` for `w ≥ 1`. -/
 def measure (cfg : Cfg) : R → Nat → Measurement
   | .text t, w => textMeasure cfg.cw t w
+  | .str t, w => textMeasure cfg.cw t w
   | .padding p _ c, w => Measurement.getPost (w : Int) (some (paddingRichMeasure p (mCh (fun x => measure cfg c x)) (w : Int)))
   | .panel o c, w =>
     match panelRichMeasure cfg.cw o (mCh (fun x => measure cfg c x)) (w : Int) with
@@ -434,6 +438,9 @@ def measure (cfg : Cfg) : R → Nat → Measurement
   | .constrain k c, w =>
     Measurement.getPost (w : Int) (some (constrainRichMeasure (k.map Int.ofNat) (mCh (fun x => measure cfg c x)) (w : Int)))
   | .styled c, w => Measurement.getPost (w : Int) (some (styledRichMeasure (mCh (fun x => measure cfg c x)) (w : Int)))
+  -- `Measurement.get` converts a `str` to a `Text` BEFORE it follows `__rich__` (measure.py:97-101): a cast that returns a `str` is
+  -- left as a `str`, which has no `__rich_measure__`
+  | .cast (.str _), w => Measurement.getPost (w : Int) none
   | .cast c, w => measure cfg c w
   | .opaque _, w => Measurement.getPost (w : Int) none
   | .group fit items, w =>
@@ -469,6 +476,7 @@ mutual
 /-- `list(r.__rich_console__(console, options))`, everything yielded rendered recursively, `options.max_width = w ≥ 1`. -/
 def render (cfg : Cfg) : R → Opts → Nat → List Seg
   | .text t, o, w => textConsole cfg t o w
+  | .str t, o, w => textConsole cfg t o w
   | .padding p e c, o, w => paddingConsole cfg.cw cfg.v p e ⟨fun x => measure cfg c x, fun x => render cfg c o x⟩ (w : Int)
   | .panel po c, o, w =>
     match panelConsole cfg.cw cfg.env cfg.v po ⟨fun x => measure cfg c x, fun x => render cfg c o x⟩ (w : Int) with
@@ -543,6 +551,7 @@ double-width characters occur) in every innermost column.
 * rule, bar, progress bar: one cell. -/
 def smin (cw : Char → Nat) : R → Nat
   | .text t => charRoom cw t.plain
+  | .str t => charRoom cw t.plain
   | .padding p _ c => p.left + p.right + smin cw c
   | .panel o c =>
     let pad := match unpackPad o.padding with | .ok p => p.left + p.right | .error _ => 0
